@@ -1,0 +1,97 @@
+//go:build verif
+
+package ldmodel
+
+import (
+	"sort"
+	"time"
+
+	"github.com/launchdarkly/go-sdk-common/v3/ldvalue"
+)
+
+// This file is compiled only with the "verif" build tag. It exposes read-only dumps of the
+// unexported preprocessed data for the external verification harness.
+
+// VerifPreValue is a dump of one clausePreprocessedValue.
+type VerifPreValue struct {
+	Computed   bool
+	Valid      bool
+	HasRegexp  bool
+	Regexp     string
+	TimeSec    int64
+	TimeNsec   int
+	TimeIsZero bool
+	Major      int
+	Minor      int
+	Patch      int
+	Prerelease string
+	Build      string
+}
+
+// VerifPrimKey is a dump of one jsonPrimitiveValueKey.
+type VerifPrimKey struct {
+	Type   ldvalue.ValueType
+	Bool   bool
+	Number float64
+	String string
+}
+
+// VerifClausePreprocessed dumps the preprocessed data of a clause.
+func VerifClausePreprocessed(c *Clause) (hasValues bool, values []VerifPreValue, hasMap bool, keys []VerifPrimKey) {
+	if c.preprocessed.values != nil {
+		hasValues = true
+		for _, p := range c.preprocessed.values {
+			v := VerifPreValue{Computed: p.computed, Valid: p.valid}
+			if p.parsedRegexp != nil {
+				v.HasRegexp = true
+				v.Regexp = p.parsedRegexp.String()
+			}
+			v.TimeSec = p.parsedTime.Unix()
+			v.TimeNsec = p.parsedTime.Nanosecond()
+			v.TimeIsZero = p.parsedTime.IsZero()
+			v.Major = p.parsedSemver.GetMajor()
+			v.Minor = p.parsedSemver.GetMinor()
+			v.Patch = p.parsedSemver.GetPatch()
+			v.Prerelease = p.parsedSemver.GetPrerelease()
+			v.Build = p.parsedSemver.GetBuild()
+			values = append(values, v)
+		}
+	}
+	if c.preprocessed.valuesMap != nil {
+		hasMap = true
+		for k := range c.preprocessed.valuesMap {
+			keys = append(keys, VerifPrimKey{Type: k.valueType, Bool: k.booleanValue, Number: k.numberValue, String: k.stringValue})
+		}
+	}
+	return
+}
+
+func verifSortedKeys(m map[string]struct{}) (bool, []string) {
+	if m == nil {
+		return false, nil
+	}
+	ret := make([]string, 0, len(m))
+	for k := range m {
+		ret = append(ret, k)
+	}
+	sort.Strings(ret)
+	return true, ret
+}
+
+// VerifTargetMap dumps the key set of a flag target.
+func VerifTargetMap(t *Target) (bool, []string) { return verifSortedKeys(t.preprocessed.valuesMap) }
+
+// VerifSegmentTargetMap dumps the key set of a segment target.
+func VerifSegmentTargetMap(t *SegmentTarget) (bool, []string) {
+	return verifSortedKeys(t.preprocessed.valuesMap)
+}
+
+// VerifSegmentMaps dumps the include/exclude key sets of a segment.
+func VerifSegmentMaps(s *Segment) (hasInc bool, inc []string, hasExc bool, exc []string) {
+	hasInc, inc = verifSortedKeys(s.preprocessed.includeMap)
+	hasExc, exc = verifSortedKeys(s.preprocessed.excludeMap)
+	return
+}
+
+// VerifParseRFC3339 re-exports parseRFC3339TimeUTC.
+func VerifParseRFC3339(s string) (time.Time, bool) { return parseRFC3339TimeUTC(s) }
